@@ -9,7 +9,7 @@ PROOF_MODULE = "Nlmodel.Proofs.C09"
 PROOF_FILES = ["Nlmodel/Proofs/C09.lean", "Nlmodel/Model/Resolve.lean", "Nlmodel/Spec/Eval.lean", "Nlmodel/Model/Pipeline.lean"]
 THEOREM_FILE = PROOF_FILES[0]
 LEVEL_TEXT = ("Lean theorems about the resolver shared by the definitional semantics and the compiler model (one traversal mirroring symbols.rs + compiler.rs, annotating every occurrence with a unique binder and a slot): the innermost/latest declaration wins; an inner scope's names vanish when it is left and outer names are untouched; a function context sees its own names and the global context only; slots of simultaneously live names of one context are pairwise different and are exactly their positions; a program with an undeclared name evaluates to a reference error with EMPTY output on both the machine model and the definitional semantics; R1 (slots implement binders) by induction over the resolver for three syntactic source fragments (control flow; the whole function-free language; top-level functions with calls and locals). Tied to the code by comparing real eval with the binder-based definitional evaluator (which never looks at slots) on scoping-heavy programs, and by metamorphic checks on the implementation alone: consistent renaming, insertion of an unused shadowing declaration in any inner block, replacement of a name by an undeclared one at any position.")
-LEVEL_NOTE = ("Trusted: Lean kernel; the resolver model is tied to symbols.rs/compiler.rs by the correspondence (bytecode equality is checked as a diagnostic in C10). The refinement 'slots implement binders' (R1) IS a theorem for three syntactic source fragments, by induction over the resolver: control flow over scalars (C09_slots_implement_binders_control_flow), the whole function-free language incl. heap values and builtins (C09_slots_implement_binders_function_free), and programs with top-level function definitions, calls, locals in nested block scopes of bodies (C09_slots_implement_binders_functions: a body's variable is a local of THAT body in its frame slot or an earlier global, never a caller's local; distinct function ids); composed with the simulation theorems of C01 the slot-based machine and the binder-based semantics agree there. Outside those fragments (nested function literals, heap values inside bodies) it is decided per program by the correspondence.")
+LEVEL_NOTE = ("Trusted: Lean kernel; the resolver model is tied to symbols.rs/compiler.rs by the correspondence (bytecode equality is checked as a diagnostic in C10). The refinement 'slots implement binders' (R1) IS a theorem for three syntactic source fragments, by induction over the resolver: control flow over scalars (C09_slots_implement_binders_control_flow), the whole function-free language incl. heap values and builtins (C09_slots_implement_binders_function_free), and programs with top-level function definitions, calls, locals in nested block scopes of bodies (C09_slots_implement_binders_functions: a body's variable is a local of THAT body in its frame slot or an earlier global, never a caller's local; distinct function ids); composed with the simulation theorems of C01 the slot-based machine and the binder-based semantics agree there. Since stages 6 and 7 also with heap values inside bodies and function literals nested to any depth (C09_slots_implement_binders_nested_functions: a body reads and writes its own frame and persistent globals only; function ids pairwise distinct for EVERY accepted program). Outside (literals in top-level blocks, named literals in expression position) it is decided per program by the correspondence.")
 TECHNIQUE = "Lean 4 proof (symbol-table/resolver lemmas) + differential and metamorphic scoping checks"
 RULE = ("generated programs with nested blocks, shadowing at every depth <= 5, functions in blocks and in functions, recursion, one "
         "identifier reused across scopes; each also under renaming, shadow insertion and undeclared-name injection; non-trivial = "
